@@ -54,6 +54,38 @@ theorem scim_translation_sound_partial (fold : Nat → Nat) (env : Env) (self : 
     subst h
     exact scimTr_meaning_aux fold env self uuidA e ht sf _ _ g n' h1
 
+/-- **the executable substring match is the standard's**: `subMatchStr` (leftmost-greedy) accepts a
+value exactly when the value can be split as RFC 4511 §4.5.1.7.2 demands -/
+theorem subMatchStr_iff_spec (ini : Option (List Nat)) (any : List (List Nat)) (fin : Option (List Nat))
+    (x : List Nat) : subMatchStr ini any fin x = true ↔ subSpec ini any fin x := by
+  have key : ∀ r, (match matchAny any r with
+      | none => false
+      | some r' => match fin with | none => true | some f => f.isSuffixOf r') = matchAnyFin any fin r := by
+    intro r; rfl
+  cases ini with
+  | none =>
+    simp only [subMatchStr, subSpec]
+    exact matchAnyFin_iff any fin x
+  | some i =>
+    simp only [subMatchStr, subSpec]
+    by_cases hp : i.isPrefixOf x = true
+    · simp only [hp, if_true]
+      obtain ⟨t, ht⟩ := List.isPrefixOf_iff_prefix.mp hp
+      have hd : x.drop i.length = t := by rw [← ht]; simp
+      rw [hd]
+      refine Iff.trans (matchAnyFin_iff any fin t) ?_
+      constructor
+      · intro h; exact ⟨t, ht.symm, h⟩
+      · rintro ⟨r, hr, hs⟩
+        have : r = t := by rw [hr] at ht; exact (List.append_cancel_left ht).symm
+        rw [← this]; exact hs
+    · simp only [hp, Bool.false_eq_true, if_false]
+      constructor
+      · intro h; cases h
+      · rintro ⟨r, hr, _⟩
+        exfalso; apply hp
+        exact List.isPrefixOf_iff_prefix.mpr ⟨r, hr.symm⟩
+
 /-! ## 2. what is not implemented is rejected, never answered -/
 
 /-- LDAP `>=`, `<=`, `~=` and extensible match anywhere in the filter: the whole filter is refused. -/
